@@ -140,3 +140,5 @@ def run(ctx):
     ctx.layers["B"] = {"layout_types": len(units) * len(reps) * 2, "type_table_rows": len(table), "configs": cfgs}
     ctx.layers["C"] = {"operations_compared_with_raw_twin": sum(s["n"] for s in sums), "records_validated_by_TLC": nval, "mismatches": sum(s["mismatches"] for s in sums)}
     ctx.states = max(ctx.states, 1)
+    from .. import walks
+    walks.run(ctx, {"MulInt", "Neg"}, "scalar * and unary - inside chains of operations", seed_offset=13)
